@@ -24,7 +24,7 @@ type c02Spec struct {
 func c02Cases(tier string, seed uint64, flavor string) []lib.Case {
 	n, rep := 200, 3
 	if tier == "thorough" {
-		n, rep = 2000, 8
+		n, rep = 10000, 8
 	}
 	comps := lib.FastComps()
 	var cases []lib.Case
